@@ -158,6 +158,27 @@ class C11(SpecValueCheck):
             elif not viol and dgot is not None:
                 xv.fail('decode-false-reject', '%s: decode(check_constraints=True) rejected a valid value: %s'
                         % (label, dgot), **case_extra)
+            # the second decoding entry point: decode_with_length(check_constraints=True) must give
+            # the same verdict as the model on the same octets
+            if x.codec == 'ber':
+                rec.ev()
+                try:
+                    x.c.decode_with_length(x.name, e2, check_constraints=True)
+                    lgot = None
+                except common.A_ConstraintsError as ex:
+                    lgot = ex
+                except Exception:
+                    rec.cls('decode-with-length-other-error')
+                    return
+                rec.cls('decode-with-length:' + ('violated' if viol else 'ok'))
+                if viol and lgot is None:
+                    xv.fail('decode-with-length-silent-accept',
+                            '%s: decode_with_length(check_constraints=True) accepted a value violating %s at %s'
+                            % (label, viol[0][1], viol[0][0] or '<top>'), **case_extra)
+                elif not viol and lgot is not None:
+                    xv.fail('decode-with-length-false-reject',
+                            '%s: decode_with_length(check_constraints=True) rejected a valid value: %s'
+                            % (label, lgot), **case_extra)
 
     def oracle(self, x):
         self.judge(x, x.v, 'valid', False)
